@@ -4,34 +4,45 @@
      1 L bytes                         PeerId::from_bytes
      2 L chars                         PeerId::from_str (ASCII)
      3 L bytes                         Multiaddr::try_from(bytes) + PeerId::try_from_multiaddr
-     4 L blob L sha acc L key          a protobuf key blob: sha = SHA-256(blob) (oracle), acc/key =
-                                       did the implementation's protobuf+curve decoder accept it and
-                                       which 32-byte key came out (oracle: prost and curve25519 are
-                                       not modelled)
-     5 L secret L pub L blob acc       an Ed25519 keypair and an encoding of its public key
+     4 L blob oc                       a protobuf key blob; oc = is the Data field a point of the curve
+                                       (oracle: curve25519 is not modelled; the protobuf decoding, the
+                                       key admission and SHA-256 are)
+     5 L secret L pub L blob           an Ed25519 keypair and an encoding of its public key
                                        (canonical or mutated) pushed through the Noise identity check
-                                       with a valid signature; acc = "blob decodes to pub" (oracle)
+                                       with a valid signature of that key
      6 L chars                         Multiaddr::from_str + PeerId::try_from_multiaddr (text made of
                                        p2p / ipfs / p2p-circuit components)
      7 L bytes L bytes                 two ids: PartialEq, Ord, Hash against the byte order
      8 n                               n draws of PeerId::random()
-     9 L secret L pub L blob acc       as 5, through a TLS certificate (QUIC; harness built with `quic`)
-     10 L blob L pkcs1 L sha acc       an RSA key (harness built with `rsa`): blob = protobuf framing
-                                       around its SubjectPublicKeyInfo, sha = SHA-256 of the canonical
-                                       message as computed by the harness, acc = "blob decodes to pkcs1"
+     9 L secret L pub L blob           as 5, through a TLS certificate (QUIC; harness built with `quic`)
+     10 L blob L pkcs1 xacc            an RSA key (harness built with `rsa`): blob = protobuf framing
+                                       around its SubjectPublicKeyInfo, xacc = does the X.509 parser
+                                       take the Data field for this key (oracle, only consulted when the
+                                       field is not the canonical DER)
+     11 L peer L addr                  AddressRecord::new(peer, addr, 0) / from_multiaddr(addr) for a peer
+                                       id given as bytes and ANY binary multiaddress (multiaddr 0.18.2's
+                                       protocol table, coq/C19/Formats.v), and try_from_multiaddr of the
+                                       address and of the record's address
    Traces:
      kinds 1-3,6: k 1 L bytes L text L component f1..f10 refacc refsame    accepted
-                  k 0 refacc agree                                        rejected
+                  k 0 refacc agree [err]                                  rejected (kind 2: err = 1
+                                                                          ParseError::B58, 2 MultiHash)
                   (f10 / agree: every other entry point for the same input gives the same result)
-     kind 4:     4 L pid_of_blob acc [L key L pid] refacc [L refpid]
+     kind 4:     4 L pid_of_blob dm [type L data] acc [L key L pid] refacc [L refpid]
+                 (dm: prost decoded the message; type = the i32 as u32; data = the Data field)
      kind 5, 9:  k L pid L pub nacc [L handshake_pid] L refpid ispk
      kind 7:     7 a1 a2 [eq ord hashimp byteseq bytesord texteq]   (ord: 0 Less 1 Equal 2 Greater)
      kind 8:     8 ok
      kind 10:    10 acc [L pid] nacc [L noise_pid] tacc [L tls_pid]
+     kind 11:    11 pacc [aacc [r0acc [L r0] L recbytes r1acc [L r1] fm]]
+                 (r0 = try_from_multiaddr(addr), recbytes = record.address().to_vec(),
+                  r1 = try_from_multiaddr(record.address()), fm = from_multiaddr(addr).is_some())
    A panic is the single number PANIC_MARK. *)
 From Coq Require Import List NArith Bool.
 From V.common Require Import Wire Varint.
-From V.C18 Require Import Model.
+From V.common Require Import Protobuf Sha256.
+From V.C18 Require Import Model Addr.
+From V.C19 Require Import Formats.
 Import ListNotations.
 Open Scope N_scope.
 
@@ -42,13 +53,14 @@ Inductive case :=
 | CBytes (b : list N)
 | CText (t : list N)
 | CComp (b : list N)
-| CBlob (blob sha : list N) (acc : bool) (key : list N)
-| CKey (secret pub blob : list N) (acc : bool)
+| CBlob (blob : list N) (oc : bool)
+| CKey (secret pub blob : list N)
 | CAddr (t : list N)
 | CPair (b1 b2 : list N)
 | CRandom (n : N)
-| CTls (secret pub blob : list N) (acc : bool)
-| CRsa (blob pkcs1 sha : list N) (acc : bool).
+| CTls (secret pub blob : list N)
+| CRsa (blob pkcs1 : list N) (xacc : bool)
+| CRec (peer addr : list N).
 
 Definition p_case : parser case :=
   let* k := pN in
@@ -56,30 +68,25 @@ Definition p_case : parser case :=
   | 1 => let* b := pL in pret (CBytes b)
   | 2 => let* b := pL in pret (CText b)
   | 3 => let* b := pL in pret (CComp b)
-  | 4 => let* blob := pL in let* sha := pL in let* acc := pBool in let* key := pL in
-         pret (CBlob blob sha acc key)
-  | 5 => let* s := pL in let* p := pL in let* blob := pL in let* acc := pBool in
-         pret (CKey s p blob acc)
+  | 4 => let* blob := pL in let* oc := pBool in pret (CBlob blob oc)
+  | 5 => let* s := pL in let* p := pL in let* blob := pL in pret (CKey s p blob)
   | 6 => let* b := pL in pret (CAddr b)
   | 7 => let* a := pL in let* b := pL in pret (CPair a b)
   | 8 => let* n := pN in pret (CRandom n)
-  | 9 => let* s := pL in let* p := pL in let* blob := pL in let* acc := pBool in
-         pret (CTls s p blob acc)
-  | 10 => let* blob := pL in let* pk := pL in let* sha := pL in let* acc := pBool in
-          pret (CRsa blob pk sha acc)
+  | 9 => let* s := pL in let* p := pL in let* blob := pL in pret (CTls s p blob)
+  | 10 => let* blob := pL in let* pk := pL in let* acc := pBool in pret (CRsa blob pk acc)
+  | 11 => let* pb := pL in let* ab := pL in pret (CRec pb ab)
   | _ => pfail
   end.
 
 Definition well_formed (c : case) : bool :=
   match c with
   | CBytes b | CText b | CComp b | CAddr b => true
-  | CPair _ _ | CRandom _ => true
-  | CTls s p blob _ => bytes_ok s && bytes_ok p && bytes_ok blob && (len s =? 32) && (len p =? 32)
-  | CRsa blob pk sha _ => bytes_ok blob && bytes_ok pk && bytes_ok sha && (len sha =? 32)
-  | CBlob blob sha acc key =>
-      bytes_ok blob && bytes_ok sha && (len sha =? 32) && bytes_ok key &&
-      (if acc then len key =? 32 else len key =? 0)
-  | CKey s p blob _ => bytes_ok s && bytes_ok p && bytes_ok blob && (len s =? 32) && (len p =? 32)
+  | CPair _ _ | CRandom _ | CRec _ _ => true
+  | CTls s p blob => bytes_ok s && bytes_ok p && bytes_ok blob && (len s =? 32) && (len p =? 32)
+  | CRsa blob pk _ => bytes_ok blob && bytes_ok pk
+  | CBlob blob _ => bytes_ok blob
+  | CKey s p blob => bytes_ok s && bytes_ok p && bytes_ok blob && (len s =? 32) && (len p =? 32)
   end.
 
 Definition decode_case (l : list N) : option case :=
@@ -99,6 +106,13 @@ Definition parse_result (k : N) (r : option pid) : list N :=
   | None => [k; 0; 0; 1]
   end.
 
+(* PeerId::from_str: a rejection also names the error variant *)
+Definition text_result (t : list N) : list N :=
+  match of_text t with
+  | Some p => 2 :: 1 :: accepted_tail p
+  | None => [2; 0; 0; 1; of_text_err t]
+  end.
+
 Definition enc_cmp (c : comparison) : N := match c with Lt => 0 | Eq => 1 | Gt => 2 end.
 Definition const_hash (sha : list N) : hash := fun _ => sha.
 
@@ -106,24 +120,64 @@ Definition handshake_trace (k : N) (p : list N) (acc : bool) : list N :=
   let pb := eL (to_bytes (from_public_key (const_hash []) p)) in
   k :: pb ++ eL p ++ (if acc then 1 :: pb else [0]) ++ pb ++ [1].
 
-(* the key a blob stands for: the canonical form is decided by the model, everything else by
-   the oracle bit of the case *)
-Definition blob_key (blob key : list N) : list N :=
-  match decode_ed25519_canonical blob with Some k => k | None => key end.
+(* The decoders of the two builds: the default one has no `rsa` feature (an RSA-typed message is
+   UnknownKeyType), the second stream has it. The curve check is the oracle bit of the case; the
+   X.509 parser is asked only about Data fields that are not the canonical DER of the key. *)
+Definition blob_decoder (oc : bool) : decoder :=
+  decode_pubkey (fun _ => oc) (fun _ => None) false.
+
+(* kinds 5 / 9: the signature is made with the secret key of `pub`, so the identity check goes
+   through exactly when the message decodes to an Ed25519-typed `pub` (a real public key is a
+   curve point) *)
+Definition key_decoder (pub : list N) : decoder :=
+  decode_pubkey (fun d => nlist_eqb d pub) (fun _ => None) false.
+Definition blob_is_key (pub blob : list N) : bool :=
+  match key_decoder pub blob with Some (KEd k) => nlist_eqb k pub | _ => false end.
+
+Definition rsa_decoder (pk : list N) (xacc : bool) : decoder :=
+  decode_pubkey (fun _ => false)
+                (fun d => if nlist_eqb d (spki pk) then Some pk else if xacc then Some pk else None) true.
+Definition blob_is_rsa_key (pk : list N) (xacc : bool) (blob : list N) : bool :=
+  match rsa_decoder pk xacc blob with Some (KRsa _) => true | _ => false end.
+
+Definition keymsg_trace (blob : list N) : list N :=
+  match decode_keymsg blob with
+  | Some m => 1 :: k_type m :: eL (k_data m)
+  | None => [0]
+  end.
+
+Definition opt_pid (o : option pid) : list N :=
+  match o with Some q => 1 :: eL (to_bytes q) | None => [0] end.
+
+Definition rec_trace (pb ab : list N) : list N :=
+  match of_bytes pb with
+  | None => [11; 0]
+  | Some p =>
+      match maddr_parse ab with
+      | Ok cs =>
+          11 :: 1 :: 1 :: opt_pid (of_comps cs) ++
+          match record_new_bytes p ab with
+          | Some rb => eL rb ++ opt_pid (of_maddr rb)
+          | None => []
+          end ++ [b2n (ends_with_p2p cs)]
+      | _ => [11; 1; 0]
+      end
+  end.
 
 Definition run (c : case) : list N :=
   match c with
   | CBytes b => parse_result 1 (of_bytes b)
-  | CText t => parse_result 2 (of_text t)
+  | CText t => text_result t
   | CComp b => parse_result 3 (of_component b)
-  | CBlob blob sha acc key =>
-      4 :: eL (to_bytes (of_key_enc sha blob)) ++
-      (if acc
-       then let k := blob_key blob key in
-            let pb := eL (to_bytes (of_ed25519 [] k)) in
+  | CBlob blob oc =>
+      4 :: eL (to_bytes (derive_fast blob)) ++ keymsg_trace blob ++
+      (match blob_decoder oc blob with
+       | Some (KEd k) =>
+            let pb := eL (to_bytes (remote_to_peer_id (const_hash []) (KEd k))) in
             1 :: eL k ++ pb ++ 1 :: pb
-       else [0; 0])
-  | CKey s p blob acc => handshake_trace 5 p acc
+       | _ => [0; 0]
+       end)
+  | CKey s p blob => handshake_trace 5 p (blob_is_key p blob)
   | CAddr t => parse_result 6 (of_addr_text t)
   | CPair b1 b2 =>
       match of_bytes b1, of_bytes b2 with
@@ -135,12 +189,13 @@ Definition run (c : case) : list N :=
                  b2n (match b with Some _ => true | None => false end)]
       end
   | CRandom _ => [8; 1]
-  | CTls s p blob acc => handshake_trace 9 p acc
-  | CRsa blob pk sha acc =>
-      if acc
-      then let pb := eL (to_bytes (remote_to_peer_id (const_hash sha) (KRsa pk))) in
+  | CTls s p blob => handshake_trace 9 p (blob_is_key p blob)
+  | CRsa blob pk xacc =>
+      if blob_is_rsa_key pk xacc blob
+      then let pb := eL (to_bytes (remote_to_peer_id sha256 (KRsa pk))) in
            10 :: 1 :: pb ++ 1 :: pb ++ 1 :: pb
       else [10; 0; 0; 0]
+  | CRec pb ab => rec_trace pb ab
   end.
 
 Definition run_case (l : list N) : list N :=
@@ -186,23 +241,32 @@ Definition canon_ok (c : case) (a : accepted) : bool :=
   | _ => true      (* "/ipfs/.." and addresses with more components are other spellings by design *)
   end.
 
-(* known class 1: the input is strictly longer than the rendering — an over-long varint
-   (10 bytes for u64, 5 for u32) whose excess bits unsigned-varint drops silently *)
+(* known class 1: an over-long varint (10 bytes for u64, 5 for u32) whose excess bits
+   unsigned-varint drops silently. For bytes and text the accepted inputs that are not the
+   rendering of their id are EXACTLY 9 or 18 bytes longer than it (KeyProofs.
+   of_bytes_noncanonical_length: one or both header varints in their 10-byte form); a /p2p
+   component adds the 5-byte form of the protocol number (+3) and the 10-byte form of its length
+   prefix (+9). *)
+Definition excess_in (longer shorter : list N) (allowed : list nat) : bool :=
+  Nat.ltb (length shorter) (length longer) &&
+  existsb (Nat.eqb (length longer - length shorter)) allowed.
+
 Definition overlong (c : case) (a : accepted) : bool :=
   match c with
-  | CBytes b => Nat.ltb (length (a_bytes a)) (length b)
+  | CBytes b => excess_in b (a_bytes a) [9; 18]%nat
   | CText t => match b58_decode t with
-               | Some b => Nat.ltb (length (a_bytes a)) (length b)
+               | Some b => excess_in b (a_bytes a) [9; 18]%nat
                | None => false
                end
-  | CComp b => Nat.ltb (length (a_comp a)) (length b)
+  | CComp b => excess_in b (a_comp a) [3; 9; 12; 18; 21; 27; 30]%nat
   | _ => false
   end.
 
 Definition kind_of (c : case) : N :=
   match c with
-  | CBytes _ => 1 | CText _ => 2 | CComp _ => 3 | CBlob _ _ _ _ => 4 | CKey _ _ _ _ => 5
-  | CAddr _ => 6 | CPair _ _ => 7 | CRandom _ => 8 | CTls _ _ _ _ => 9 | CRsa _ _ _ _ => 10
+  | CBytes _ => 1 | CText _ => 2 | CComp _ => 3 | CBlob _ _ => 4 | CKey _ _ _ => 5
+  | CAddr _ => 6 | CPair _ _ => 7 | CRandom _ => 8 | CTls _ _ _ => 9 | CRsa _ _ _ => 10
+  | CRec _ _ => 11
   end.
 
 Definition is_parse (c : case) : bool := (kind_of c <=? 3) || (kind_of c =? 6).
@@ -219,7 +283,8 @@ Definition pair_ok (body : list N) : bool :=
 
 (* an RSA key: whatever framing was received, all three paths give the id of the canonical
    message (SHA-256 multihash; the digest is the oracle of the case) *)
-Definition rsa_ok (pk sha : list N) (acc : bool) (body : list N) : bool :=
+Definition rsa_ok (pk : list N) (xacc : bool) (blob : list N) (body : list N) : bool :=
+  let acc := blob_is_rsa_key pk xacc blob in
   match pall (let* a := pN in
               let* p1 := (if a =? 1 then let* x := pL in pret (Some x) else pret None) in
               let* na := pN in
@@ -228,54 +293,91 @@ Definition rsa_ok (pk sha : list N) (acc : bool) (body : list N) : bool :=
               let* p3 := (if ta =? 1 then let* x := pL in pret (Some x) else pret None) in
               pret (p1, p2, p3)) body with
   | Some (p1, p2, p3) =>
-      let want := to_bytes (remote_to_peer_id (const_hash sha) (KRsa pk)) in
+      let want := to_bytes (remote_to_peer_id sha256 (KRsa pk)) in
       let good := fun o : option (list N) =>
                     match o with Some x => acc && nlist_eqb x want | None => negb acc end in
       good p1 && good p2 && good p3
   | None => false
   end.
 
-Definition blob_ok (blob sha : list N) (body : list N) : bool :=
-  match pall (let* pid0 := pL in let* acc := pN in
-              if acc =? 1
-              then let* key := pL in let* pidb := pL in let* ra := pN in
-                   if ra =? 1 then let* rp := pL in pret (pid0, Some (key, pidb, Some rp))
-                   else pret (pid0, Some (key, pidb, None))
-              else let* ra := pN in
-                   if ra =? 1 then let* rp := pL in pret (pid0, None) else pret (pid0, None)) body with
-  | Some (pid0, r) =>
-      (* from_public_key_protobuf: identity multihash of the bytes when <= 42, else SHA-256 *)
-      nlist_eqb pid0 (to_bytes (of_key_enc sha blob)) &&
-      match r with
-      | Some (key, pidb, Some rp) =>
-          (* same acceptance as the reference, same id as the reference, and the id is the one
-             of the canonical encoding of the key *)
+Definition p_optlist (flag : N) : parser (option (list N)) :=
+  if flag =? 1 then let* x := pL in pret (Some x) else pret None.
+
+(* a key blob: `from_public_key_protobuf` is the identity / SHA-256 multihash of the bytes as they
+   are; when the blob is admitted as a key, the id is the one of the canonical encoding of the key
+   the message carries (Ed25519-typed, 32 bytes — the trace's own report of the decoded message
+   is used, so this does not depend on the model's decoder) and the reference derives the same
+   id; the reference admits the blob exactly when litep2p does *)
+Definition blob_ok (blob : list N) (body : list N) : bool :=
+  match pall (let* pid0 := pL in
+              let* dm := pN in
+              let* msg := (if dm =? 1 then let* t := pN in let* d := pL in pret (Some (t, d)) else pret None) in
+              let* acc := pN in
+              let* key := p_optlist acc in
+              let* pidb := p_optlist acc in
+              let* ra := pN in
+              let* rp := p_optlist ra in
+              pret (pid0, dm, msg, acc, key, pidb, ra, rp)) body with
+  | Some (pid0, dm, msg, acc, key, pidb, ra, rp) =>
+      nlist_eqb pid0 (to_bytes (derive_fast blob)) && (dm <=? 1) && (acc <=? 1) && (ra <=? 1) &&
+      (acc =? ra) &&
+      match key, pidb, rp with
+      | Some key, Some pidb, Some rp =>
           nlist_eqb pidb rp && (len key =? 32) &&
           nlist_eqb pidb (to_bytes (of_ed25519 [] key)) &&
-          match decode_ed25519_canonical blob with Some k => nlist_eqb k key | None => true end
-      | Some (_, _, None) => false
-      | None =>
-          (* rejected by both: second number after pid0 must be refacc = 0 *)
-          match pall (let* _ := pL in let* a := pN in let* ra := pN in pret (a, ra)) body with
-          | Some (a, ra) => (a =? 0) && (ra =? 0)
+          match msg with
+          | Some (t, d) => (t =? KT_ED25519) && nlist_eqb d key
           | None => false
-          end
+          end &&
+          match decode_ed25519_canonical blob with Some k => nlist_eqb k key | None => true end
+      | None, None, None => true
+      | _, _, _ => false
       end
   | None => false
   end.
 
-Definition key_ok (pub : list N) (acc : bool) (body : list N) : bool :=
+Definition key_ok (pub blob : list N) (body : list N) : bool :=
   match pall (let* pidb := pL in let* pk := pL in let* na := pN in
-              let* np := (if na =? 1 then let* x := pL in pret (Some x) else pret None) in
+              let* np := p_optlist na in
               let* rp := pL in let* ispk := pN in pret (pidb, pk, na, np, rp, ispk)) body with
   | Some (pidb, pk, na, np, rp, ispk) =>
       let want := to_bytes (of_ed25519 [] pub) in
       nlist_eqb pk pub && nlist_eqb pidb want && nlist_eqb rp want && (ispk =? 1) &&
       match np with
       | Some x => nlist_eqb x want       (* whatever encoding was received, the id is the key's *)
-      | None => negb acc                 (* an encoding of the key must not be turned away *)
+      | None => negb (blob_is_key pub blob)   (* a protobuf encoding of the key must not be turned away *)
       end
   | None => false
+  end.
+
+(* AddressRecord::new: whenever the peer id and the address are accepted, the record's address
+   yields an id; it is the given peer when the address did not end with /p2p, and otherwise the
+   address is kept byte for byte and yields the id it already carried (from_multiaddr says which
+   case it is) *)
+Definition rec_ok (pb ab : list N) (body : list N) : bool :=
+  match body with
+  | [0] => true
+  | [1; 0] => true
+  | 1 :: 1 :: rest =>
+      match pall (let* a0 := pN in let* r0 := p_optlist a0 in
+                  let* rb := pL in
+                  let* a1 := pN in let* r1 := p_optlist a1 in
+                  let* fm := pN in pret (r0, rb, r1, fm)) rest with
+      | Some (r0, rb, r1, fm) =>
+          match r1 with
+          | None => false
+          | Some r1 =>
+              if fm =? 1 then
+                nlist_eqb rb ab && match r0 with Some r0 => nlist_eqb r0 r1 | None => false end
+              else if fm =? 0 then
+                match r0 with Some _ => false | None => true end &&
+                match of_bytes pb with Some p => nlist_eqb r1 (to_bytes p) | None => false end &&
+                Nat.ltb (length ab) (length rb) && nlist_eqb (firstn (length ab) rb) ab
+              else false
+          end
+      | None => false
+      end
+  | _ => false
   end.
 
 Definition prop_parts (case trace : list N) : option (bool * bool * bool) :=
@@ -288,8 +390,10 @@ Definition prop_parts (case trace : list N) : option (bool * bool * bool) :=
           if negb (k =? kind_of c) then Some (false, true, false)
           else if is_parse c then
             match rest with
-            | [0; ra; ag] => Some ((ra =? 0) && (ag =? 1), true, false)
+            | [0; ra; ag] => Some ((ra =? 0) && (ag =? 1) && negb (k =? 2), true, false)
                 (* rejected: the reference and every other entry point must reject too *)
+            | [0; ra; ag; err] =>
+                Some ((ra =? 0) && (ag =? 1) && (k =? 2) && ((err =? 1) || (err =? 2)), true, false)
             | 1 :: body =>
                 match pall p_accepted body with
                 | Some a => Some (core_ok a, canon_ok c a, overlong c a)
@@ -299,11 +403,12 @@ Definition prop_parts (case trace : list N) : option (bool * bool * bool) :=
             end
           else
             match c with
-            | CBlob blob sha _ _ => Some (blob_ok blob sha rest, true, false)
-            | CKey _ pub _ acc | CTls _ pub _ acc => Some (key_ok pub acc rest, true, false)
+            | CBlob blob _ => Some (blob_ok blob rest, true, false)
+            | CKey _ pub blob | CTls _ pub blob => Some (key_ok pub blob rest, true, false)
             | CPair _ _ => Some (pair_ok rest, true, false)
             | CRandom _ => Some (match rest with [1] => true | _ => false end, true, false)
-            | CRsa _ pk sha acc => Some (rsa_ok pk sha acc rest, true, false)
+            | CRsa blob pk xacc => Some (rsa_ok pk xacc blob rest, true, false)
+            | CRec pb ab => Some (rec_ok pb ab rest, true, false)
             | _ => Some (false, true, false)
             end
       | [] => Some (false, true, false)
